@@ -753,15 +753,15 @@ fn tokio_part(cx: &Ctx, tier: Tier) -> serde_json::Value {
     let scenarios: Vec<(&str, &str, bool, bool, u32)> = vec![
         // (direction, message set, faults, flush_each, deviation bound)
         ("recv", "tiny", true, false, 64),  // all scripts outright (11 bytes)
-        ("recv", "three", true, false, tier.pick(2, 3)),
-        ("recv", "item", true, false, tier.pick(2, 3)),
+        ("recv", "three", true, false, tier.pick(2, 5)),
+        ("recv", "item", true, false, tier.pick(2, 5)),
         ("send", "tiny", true, false, 64),
         ("send", "tiny", true, true, 64),
-        ("send", "three", true, true, tier.pick(2, 3)),
-        ("send", "three", true, false, tier.pick(2, 3)),
-        ("send", "item", true, false, tier.pick(2, 3)),
-        ("send", "backpressure", true, false, tier.pick(2, 3)),
-        ("send", "backpressure", false, true, tier.pick(3, 4)),
+        ("send", "three", true, true, tier.pick(2, 5)),
+        ("send", "three", true, false, tier.pick(2, 5)),
+        ("send", "item", true, false, tier.pick(2, 5)),
+        ("send", "backpressure", true, false, tier.pick(2, 5)),
+        ("send", "backpressure", false, true, tier.pick(3, 6)),
     ];
     for (dir, set, faults, flush_each, bound) in scenarios {
         let cfg = ExploreCfg {
@@ -1009,7 +1009,7 @@ fn buffered_part(cx: &Ctx, tier: Tier) -> serde_json::Value {
     let mut per = Vec::new();
     for (n, flush_after) in [(1usize, vec![0usize]), (2, vec![1]), (3, vec![2]), (3, vec![0, 2]), (3, vec![0, 1, 2])] {
         let cfg = ExploreCfg {
-            bound: tier.pick(4, 6),
+            bound: tier.pick(4, 8),
             ..Default::default()
         };
         let fa = flush_after.clone();
